@@ -9,6 +9,7 @@ import (
 	"fmt"
 	"os"
 	"strings"
+	"sync/atomic"
 
 	"github.com/Tom-Johnston/mamba/graph"
 	"github.com/Tom-Johnston/mamba/sortints"
@@ -324,6 +325,156 @@ func geReplayTrace(r geReplay) (string, *Failure) {
 // c05Scripted: deterministic long edit scripts on graphs with up to 16 vertices (degrees above 8, capacities that
 // grow several times), every step compared with the model on both representations. A fixed family, not a sample:
 // script s is generated by an LCG seeded with s.
+// c05Large: single operations on graphs with 17..64 vertices (implementations switch strategy above size or
+// degree thresholds that the concrete-state BFS, bounded at 5-6 vertices, never reaches): InducedSubgraph on a
+// family of vertex lists, RemoveVertex/AddVertex at several positions, Copy - on structured graphs with hubs,
+// low-degree vertices and gaps, both representations, each compared with the model.
+func c05Large(c *Ctx) {
+	type lg struct {
+		name string
+		m    *MG
+	}
+	var graphs []lg
+	for _, n := range []int{17, 18, 19, 24, 32, 33, 40, 48, 63, 64} {
+		mk := func(name string, edge func(i, j int) bool) {
+			m := newMG(n)
+			for i := 0; i < n; i++ {
+				for j := 0; j < i; j++ {
+					if edge(j, i) {
+						m.set(i, j, true)
+					}
+				}
+			}
+			graphs = append(graphs, lg{fmt.Sprintf("%s(%d)", name, n), m})
+		}
+		mk("path", func(i, j int) bool { return j == i+1 })
+		mk("star-hub0", func(i, j int) bool { return i == 0 })
+		mk("star-hub-last", func(i, j int) bool { return j == n-1 })
+		mk("two-hubs", func(i, j int) bool { return i <= 1 && j >= 2 && (j%3 != 0 || i == 0) })
+		mk("few-low-degree", func(i, j int) bool { return (i == 0 || i == 1) && j == 5 || (i >= 6 && (i+j)%4 == 0) })
+		x := uint64(n)*7919 + 13
+		mk("lcg-sparse", func(i, j int) bool {
+			x = x*6364136223846793005 + 1442695040888963407
+			return (x>>33)%9 == 0
+		})
+		mk("cycle+chords", func(i, j int) bool { return j == i+1 || (i == 0 && j == n-1) || (j-i == 7 && i%3 == 0) })
+	}
+	var cases int64
+	c.parFor(int64(len(graphs)), 1, func(lo, hi int64) {
+		for _, gr := range graphs[lo:hi] {
+			n := gr.m.n
+			var lists [][]int
+			seq := func(f func(i int) (int, bool), k int) {
+				var l []int
+				for i := 0; i < k; i++ {
+					if v, ok := f(i); ok {
+						l = append(l, v)
+					}
+				}
+				lists = append(lists, l)
+			}
+			seq(func(i int) (int, bool) { return i + 1, true }, n-1)     // 1..n-1
+			seq(func(i int) (int, bool) { return i, true }, n-1)         // 0..n-2
+			seq(func(i int) (int, bool) { return i, true }, n)           // all
+			seq(func(i int) (int, bool) { return n - 1 - i, true }, n)   // reversed
+			seq(func(i int) (int, bool) { return (i + 3) % n, true }, n) // rotated
+			seq(func(i int) (int, bool) { return 2 * i, 2*i < n }, n)
+			seq(func(i int) (int, bool) { return 2*i + 1, 2*i+1 < n }, n)
+			seq(func(i int) (int, bool) { return 3 * i, 3*i < n }, n)
+			for _, k := range []int{0, 1, 5, n / 2, n - 1} {
+				k := k
+				seq(func(i int) (int, bool) { return i, i != k }, n)
+				seq(func(i int) (int, bool) { return i, i != k && i != (k+2)%n }, n)
+			}
+			pp := lcgPerm(n, uint64(n)*31+7)
+			lists = append(lists, pp, pp[:n-3], pp[:n/2], pp[:2], nil)
+			var ops []geOp
+			for _, l := range lists {
+				if l == nil {
+					l = []int{}
+				}
+				ops = append(ops, geOp{Op: "IS", V: l})
+			}
+			for _, v := range []int{0, 1, n / 2, n - 2, n - 1} {
+				ops = append(ops, geOp{Op: "RV", I: v})
+			}
+			ops = append(ops, geOp{Op: "CP"}, geOp{Op: "AV", V: lists[5]}, geOp{Op: "AV", V: lists[3]}, geOp{Op: "AV", V: []int{}})
+			for _, rep := range []string{"dense", "sparse"} {
+				for _, op := range ops {
+					if op.Op == "AV" && n >= 64 {
+						continue // the model holds at most 64 vertices
+					}
+					g, _ := geLargeGraph(n, egFromMGAny(gr.m).Edges, rep)
+					_, _, f := geApplyRaw(g, gr.m, op)
+					atomic.AddInt64(&cases, 1)
+					c.Evals(1)
+					c.Nontrivial(1)
+					if f != nil {
+						f.Class = "graph-edit/large/" + f.Class[len("graph-edit/"):]
+						f.Kind = "ge-large"
+						f.What = fmt.Sprintf("%s, %s: %s", gr.name, rep, f.What)
+						f.Replay = geLargeReplay{Graph: gr.name, N: n, Edges: egFromMGAny(gr.m).Edges, Rep: rep, Op: op}
+						c.Fail(f)
+					}
+				}
+			}
+		}
+	})
+	c.SetCount("large_graph_single_operation_cases", cases)
+}
+
+type geLargeReplay struct {
+	Graph string   `json:"graph"`
+	N     int      `json:"n"`
+	Edges [][2]int `json:"edges"`
+	Rep   string   `json:"rep"`
+	Op    geOp     `json:"op"`
+}
+
+func egFromMGAny(m *MG) *EG {
+	g := &EG{N: m.n}
+	for j := 1; j < m.n; j++ {
+		for i := 0; i < j; i++ {
+			if m.has(i, j) {
+				g.Edges = append(g.Edges, [2]int{i, j})
+			}
+		}
+	}
+	return g
+}
+
+func geLargeGraph(n int, edges [][2]int, rep string) (graph.EditableGraph, *MG) {
+	m := newMG(n)
+	for _, e := range edges {
+		m.set(e[0], e[1], true)
+	}
+	if rep == "dense" {
+		b := make([]byte, edgeCount(n)) // (denseFromMG goes through a 64-bit edge mask: n <= 11 only)
+		for _, e := range edges {
+			i, j := e[0], e[1]
+			if i > j {
+				i, j = j, i
+			}
+			b[j*(j-1)/2+i] = 1
+		}
+		return graph.NewDense(n, b), m
+	}
+	return sparseFromMG(m), m
+}
+
+func replayLarge(raw json.RawMessage) *Failure {
+	var r geLargeReplay
+	if err := json.Unmarshal(raw, &r); err != nil {
+		return &Failure{Class: "replay/bad-file", What: err.Error()}
+	}
+	g, m := geLargeGraph(r.N, r.Edges, r.Rep)
+	_, _, f := geApplyRaw(g, m, r.Op)
+	if f != nil {
+		f.Class = "graph-edit/large/" + f.Class[len("graph-edit/"):]
+	}
+	return f
+}
+
 func c05Scripted(c *Ctx) {
 	scripts, length := 48, 260
 	if c.Thorough() {
@@ -526,6 +677,7 @@ func runC05(c *Ctx) {
 		}
 	}
 	c05Scripted(c)
+	c05Large(c)
 	c.Nontrivial(nontriv)
 	c.Assume("arguments are valid: vertices in range, AddVertex neighbour lists without repeats")
 }
@@ -572,6 +724,12 @@ func replayScript(raw json.RawMessage) *Failure {
 func replayC05(kind string, raw json.RawMessage) *Failure {
 	if kind == "ge-script" {
 		return replayScript(raw)
+	}
+	if kind == "ge-large" {
+		return replayLarge(raw)
+	}
+	if kind != "ge" {
+		return unsupportedKind(kind)
 	}
 	var r geReplay
 	if err := json.Unmarshal(raw, &r); err != nil {
